@@ -163,7 +163,11 @@ def check_stream(data, entry='parse_all', cont='list', polluted=False):
 
 
 def run_case(case):
-    return check_stream(case['data'], case.get('entry', 'parse_all'), case.get('cont', 'list'), case.get('polluted', False))
+    import mido.parser
+    import mido.tokenizer
+    from lib.doubles import jumping_clock
+    with jumping_clock(mido.tokenizer, mido.parser):
+        return check_stream(case['data'], case.get('entry', 'parse_all'), case.get('cont', 'list'), case.get('polluted', False))
 
 
 def _skipped_and_yield(data):
@@ -227,6 +231,17 @@ def main(ctx):
     long_sysex = [0x90, 1, 2, 0xF0] + [(i * 7) % 128 if i % 5000 else 0xF8 for i in range(140000)] + [0xF7, 0xFA, 0x80, 3, 4]
     for entry, cont in (('parse_all', 'bytes'), ('chunks3', 'bytes'), ('feed_byte', 'list')):
         ctx.check({'data': long_sysex, 'entry': entry, 'cont': cont}, sample=False)
+    # a sysex of ordinary size arriving in three bytes-like chunks, the middle one pure payload plus one real-time
+    # (or undefined real-time) byte of every kind
+    for rt in (0xF8, 0xF9, 0xFA, 0xFB, 0xFC, 0xFD, 0xFE, 0xFF):
+        for pos in (45, 60, 79):
+            body = [(i * 5) % 128 for i in range(120)]
+            body.insert(pos, rt)
+            for cont in ('bytes', 'bytearray'):
+                ctx.check({'data': [0xF0] + body + [0xF7, 0x90, 1, 2], 'entry': 'chunks3', 'cont': cont}, sample=False)
+    if ctx.tier == 'thorough' and not ctx.reduced:
+        # more than 2**20 messages waiting in one parser (thorough tier: it costs half a minute; quick stops at 2**17)
+        ctx.check({'data': [0xFA] + [0xF8, 0xFE] * 540000 + [0xFC], 'entry': 'parse_all', 'cont': 'bytes'}, sample=False)
     for data in ([0xF0, 1, 0xF8, 2, 0xF7], [0xF0, 0xFA, 0xF7, 0x90, 1, 2], [0x90, 1, 0xFB, 2, 3]):
         for cont in ('intsub', 'enum'):
             for entry in ('parse_all', 'feed_byte', 'chunks'):
